@@ -1,8 +1,9 @@
 (* Properties/Refine.v — the sequential model refines the trace-determined specification of Spec.v, and
    therefore its own traces are never flagged by the executable predicate P_C07.
-   Only statements; proofs are in proofs/Refine.v, proofs/Refine2.v, proofs/Refine3.v. *)
+   Only statements; proofs are in proofs/Refine.v, proofs/Refine2.v, proofs/Refine3.v, proofs/Refine4.v,
+   proofs/Refine5.v. *)
 From hagall Require Import Model Spec Obs Preds.
-From hagall.proofs Require Import Inv Reach Own Refine Refine2 Refine3.
+From hagall.proofs Require Import Inv Reach Own Refine Refine2 Refine3 Refine4 Refine5.
 
 (* Membership refinement.  After EVERY history (hence after every prefix of every history) the membership
    part of the spec state that Spec.v computes from the answers alone is the abstraction of the model state. *)
@@ -61,6 +62,29 @@ Theorem Refine_entities_premise : ∀ cfg h, short h →
 Proof. exact refinement_ents_premise. Qed.
 Print Assumptions Refine_entities_premise.
 
+(* Second consumer (uses the entity refinement): on the model's own traces P_C05 never reports one of its
+   request-outcome clauses - 501-503 (EntityDelete: not found / done / refused to a non-owner), 504 (a pose update
+   of a non-owner or of a missing entity has no effect), 505-507 (AssetAdd likewise), 508 (the participant id a
+   join hands out was never issued under that incarnation) - nor 599 (harness anomaly).  NOT covered: the clauses
+   that compare a whole SessionState / module state / hook snapshot with the spec (510-518, 521-531); whatever
+   P_C05 could still report on a model trace carries one of those codes. *)
+Theorem Refine_model_passes_C05_partial : ∀ cfg h, short h →
+  Forall (λ v, (510 ≤ v_code v ≤ 531)%Z) (P_C05 cfg (run cfg h)).
+Proof. exact model_C05_partial. Qed.
+Print Assumptions Refine_model_passes_C05_partial.
+
+(* Third consumer (membership refinement only): the model's own trace passes P_C14 on every history - all
+   clauses: 1401 (a connection in no session delivers nothing), 1402/1403 (an oversized body is answered
+   TOO_LARGE and delivered to nobody), 1404 (otherwise exactly the addressed members get it, as sorted lines),
+   1405 (and no TOO_LARGE error).  On the way: the membership observer of Obs.v computes exactly the spec's
+   membership table on model traces. *)
+Theorem Refine_observer_is_spec : ∀ cfg h, short h →
+  fold_left obs_step (run cfg h) ∅ = sp_mem (spec_after (run cfg h)).
+Proof. exact obs_after_run. Qed.
+Theorem Refine_model_passes_C14 : ∀ cfg h, short h → P_C14 cfg (run cfg h) = [].
+Proof. exact model_passes_C14. Qed.
+Print Assumptions Refine_model_passes_C14.
+
 (* a concrete history: two sessions, a switch (connection 2 moves from session 1 to session 2), the end of
    session 1 (its last member leaves), a refused join of the ended session (which, as in the code, first takes
    the joiner out of the session it was in), snapshots in between *)
@@ -84,4 +108,49 @@ Example Refine_nonvacuous :
     [(1, None); (3, Some (2, 1)); (2, None)] ∧
   map (λ kv : N * session, (kv.1, s_uuid kv.2, s_pgen kv.2)) (map_to_list (sessions (final cfg refine_demo))) = [(2, 2, 2)] ∧
   P_C07 cfg (run cfg refine_demo) = [].
+Proof. vm_compute. repeat split. Qed.
+
+(* entities: connection 1 creates a persistent (id 1) and a volatile (id 2) entity, connection 2 a volatile one
+   (id 3) and moves it; 2 is refused moving / deleting entity 1; 1 leaves (entity 2 goes, entity 1 stays);
+   then 2 leaves and the session ends (everything is purged) - the table is shown before and after the end *)
+Definition refine_demo_ents : list op :=
+  [OConnect 1; OConnect 2;
+   OSend 1 (RJoin 1 SNew 1); OStep 1 0; OSend 2 (RJoin 2 (SId 1) 2); OStep 2 0;
+   OSend 1 (REntityAdd 3 true 7 None 3); OStep 1 0; OSend 1 (REntityAdd 4 false 8 None 4); OStep 1 0;
+   OSend 2 (REntityAdd 5 false 9 None 5); OStep 2 0;
+   OSend 2 (RPose 3 (Some [1;2;3;4;5;6;7]) 6); OSend 2 (RPose 1 (Some [9;9;9;9;9;9;9]) 7); OTick 1; OStep 2 0; OStep 2 0;
+   OSend 2 (REntityDelete 8 1 8); OStep 2 0;
+   ODisconnect 1; OSnap].
+Example Refine_nonvacuous_entities :
+  let cfg := {| cfg_flags := []; cfg_vikja := true; cfg_odal := true; cfg_dagaz := false |} in
+  let h := refine_demo_ents in
+  bool_decide (4 * N.of_nat (length (h ++ [ODisconnect 2])) < two32) = true ∧
+  map_to_list (sp_ents (spec_after (run cfg h))) =
+    [((1, 1), ({| ep_id := 1; ep_owner := 1; ep_pose := zero_pose; ep_flag := 7 |}, true));
+     ((1, 3), ({| ep_id := 3; ep_owner := 2; ep_pose := [1;2;3;4;5;6;7]; ep_flag := 9 |}, false))] ∧
+  map (λ kv : N * session, (kv.1, map (λ ke : N * entity, (ent_to_pb ke.1 ke.2, e_persist ke.2)) (map_to_list (s_ents kv.2))))
+      (map_to_list (sessions (final cfg h))) =
+    [(1, [({| ep_id := 1; ep_owner := 1; ep_pose := zero_pose; ep_flag := 7 |}, true);
+          ({| ep_id := 3; ep_owner := 2; ep_pose := [1;2;3;4;5;6;7]; ep_flag := 9 |}, false)])] ∧
+  map_to_list (sp_ents (spec_after (run cfg (h ++ [ODisconnect 2])))) = [] ∧
+  map_to_list (sessions (final cfg (h ++ [ODisconnect 2]))) = [] ∧
+  P_C05 cfg (run cfg (h ++ [ODisconnect 2])) = [] ∧ P_C07 cfg (run cfg (h ++ [ODisconnect 2])) = [].
+Proof. vm_compute. repeat split. Qed.
+
+(* custom messages: three members; a broadcast, a targeted message with a duplicate, an unknown id and the sender
+   among the recipients, an oversized body, and one from a connection in no session (which ends it) *)
+Definition refine_demo_custom : list op :=
+  [OConnect 1; OConnect 2; OConnect 3; OConnect 4;
+   OSend 1 (RJoin 1 SNew 1); OStep 1 0; OSend 2 (RJoin 2 (SId 1) 2); OStep 2 0; OSend 3 (RJoin 3 (SId 1) 3); OStep 3 0;
+   OSend 1 (RCustom [] [7; 8] 4); OStep 1 0;
+   OSend 1 (RCustom [3; 3; 9; 1] [5] 5); OStep 1 0;
+   OSend 2 (RCustom [] (repeat 0 (N.to_nat 10241)) 6); OStep 2 0;
+   OSend 4 (RCustom [] [1] 7); OStep 4 0].
+Example Refine_nonvacuous_custom :
+  let cfg := {| cfg_flags := []; cfg_vikja := false; cfg_odal := false; cfg_dagaz := false |} in
+  let t := run cfg refine_demo_custom in
+  map (λ e, match ev_req e with Some (RCustom _ _ _) => Some (map fst (ev_outs e), ev_verdict e) | _ => None end) t =
+    [None; None; None; None; None; None; None; None; None; None;
+     None; Some ([2; 3], VOk); None; Some ([3], VOk); None; Some ([2], VOk); None; Some ([], VErr)] ∧
+  P_C14 cfg t = [] ∧ P_C07 cfg t = [].
 Proof. vm_compute. repeat split. Qed.
